@@ -32,6 +32,7 @@ import (
 
 	"github.com/go-shiori/dom"
 	"github.com/markusmobius/go-domdistiller/data"
+	"github.com/markusmobius/go-domdistiller/internal/domutil"
 	"github.com/markusmobius/go-domdistiller/internal/extractor"
 	"github.com/markusmobius/go-domdistiller/internal/pagination"
 	"golang.org/x/net/html"
@@ -195,6 +196,7 @@ func Apply(doc *html.Node, opts *Options) (*Result, error) {
 	// Convert generated html string into node
 	container := dom.CreateElement("div")
 	dom.SetInnerHTML(container, extractedHTML)
+	sanitizeOutput(container)
 
 	// Prepare result
 	result := Result{}
@@ -245,4 +247,30 @@ func Apply(doc *html.Node, opts *Options) (*Result, error) {
 	}
 
 	return &result, nil
+}
+
+// sanitizeOutput removes what must never be part of the distilled HTML from the final
+// tree. Every element has already been sanitised before it was serialised, but
+// serialising HTML and parsing it again is not round-trip safe for every input (raw
+// text elements inside foreign content, <plaintext>, ...), so markup that was inert
+// text before may have come back as live elements.
+func sanitizeOutput(root *html.Node) {
+	dom.RemoveNodes(dom.GetAllNodesWithTag(root, "script", "style"), nil)
+
+	// The markers of the embed placeholders are the only class and data-*
+	// attributes that belong to the output, so they are put back after stripping.
+	placeholders := dom.QuerySelectorAll(root, "div.embed-placeholder")
+	markers := make([][]html.Attribute, len(placeholders))
+	for i, placeholder := range placeholders {
+		for _, attr := range placeholder.Attr {
+			if attr.Key == "class" || attr.Key == "data-type" || attr.Key == "data-id" {
+				markers[i] = append(markers[i], attr)
+			}
+		}
+	}
+
+	domutil.StripAttributes(root)
+	for i, placeholder := range placeholders {
+		placeholder.Attr = markers[i]
+	}
 }
